@@ -34,7 +34,7 @@ KINDS = ["tensor:stR", "tensor:stR-ops", "tensor:stR-sec", "tensor:stR-TD", "ten
          "prop:A:0", "prop:A:1", "prop:A:2", "prop:B:0", "prop:B:1", "prop:A:0:6", "prop:B:2:2",
          "prop:A:0:4:n2", "prop:A:1:4:n3", "prop:B:0:4:n2", "prop:A:0:4:n2", "prop:B:1:6:n2",
          "prop:N:0", "prop:N:1", "prop:N:2", "prop:N2:0", "prop:N2:1", "prop:T:0", "prop:T:1", "prop:T2:1",
-         "eU:calc", "eU:next", "sv:0", "sv:1", "pop", "heom:0", "heom:1", "heom:free", "abs"]
+         "eU:calc", "eU:next", "sv:0", "sv:1", "pop", "pop:U", "pop:corr", "pop:corr", "pop", "heom:0", "heom:1", "heom:free", "abs"]
 
 
 def gen_cases(tier, rng):
@@ -209,6 +209,11 @@ def run_case(case, ctx):
                 return kind, arr(ev.data).ravel()
             if kind == "pop":
                 return kind, arr(popp.propagate(numpy.array([1.0, 0.0, 0.0]))).ravel()
+            if kind == "pop:U":
+                return kind, arr(popp.get_PropagationMatrix(qr.TimeAxis(0.0, 6, 5.0))).ravel()
+            if kind == "pop:corr":
+                Uc, corr = popp.get_PropagationMatrix(qr.TimeAxis(0.0, 6, 5.0), corrections=2, exact=True)
+                return kind, numpy.concatenate([arr(Uc).ravel()] + [arr(c).ravel() for c in corr])
             if p[0] == "heom":
                 r0 = qr.ReducedDensityMatrix(data=arr(states[0 if p[1] != "1" else 1].data))
                 ev = hprop.propagate(r0, free_hierarchy=(p[1] == "free"))
